@@ -198,6 +198,13 @@ func runC10(r *Run) {
 		}
 	}
 	redisFaultSweep(r, "[C10]", nil)
+	// handler level: a session whose TOKENS are refreshed at every request does not get a new lifetime
+	for _, store := range []string{"mem", "redis"} {
+		if r.unknownViolations() == 0 {
+			busySessionR(r, store, 300*time.Second, 100*time.Second, 60*time.Second, true)
+			busySessionR(r, store, 300*time.Second, 0, 60*time.Second, true)
+		}
+	}
 	systemLevelTimeouts(r)
 	r.Finish("store histories with (absolute, idle) in {0,3s,4s,10s,30s} pairs: directed write/wait/read/wait/read/write/wait/read patterns with waits on either side of every limit incl. the exact boundary and 1ns around it, plus random histories; memory store and Redis store (miniredis with the same virtual clock); " +
 		"judged by the Go reference (never honoured late; not dropped inside both limits, 1s allowance for Redis) and compared line by line with the Lean store models; the system-level part builds the stores through the real NewSessionStoreFactory(cfg).PreRun(); non-trivial = a read returned data, distinct by history")
